@@ -106,7 +106,9 @@ def _events(args):
                     try:
                         res = cur.evaluate_new_data(new)
                     except Exception as e:  # pylint: disable=broad-except
-                        # unseen levels of predictors etc. are C10's business
+                        # silent mode, rows of the training frame with some factor cells renamed: nothing may be refused
+                        out.append({"id": base + 4 + step * 4 + (0 if part == "common" else 1), "kind": "object", "status": type(e).__name__ + ":" + str(e)[:60], "slices": [], "ncols": 0, "nrows": 0,
+                                    "want_rows": len(new), "views": False, "printed": False, "tag": f"new{step}:{part}"})
                         continue
                     out.append(object_event(base + 4 + step * 4 + (0 if part == "common" else 1), res, len(new), f"new{step}:{part}"))
                     if part == "common":
